@@ -36,5 +36,20 @@ def _recover(next_struct):
 _CORPUS = [_recover(None), _recover({"list": []}), _recover({"tuple": []}), _recover({"dict": []}),
            _recover({"tuple": [None, {"list": [None]}]})]
 
+# non-futures of every kind (falsy ones: 0, '', False, 0.0, b'') must be reported as TypeError; faults that are
+# BaseExceptions but not Exceptions travel like all others; one container object yielded twice
+_NONFUTURES = {
+    "roots": [[{"op": "try", "body": [{"op": "yield", "x": "a%d" % i, "s": s}], "x": "e%d" % i, "handler": []}
+               for i, s in enumerate(["bad", "bad", {"tuple": [{"new": {"const": 1}}, "bad"]}, "bad", {"list": ["bad", {"new": {"const": 2}}]},
+                                      {"dict": [[0, "bad"]]}, "bad", "bad"])] + [{"op": "return", "e": 1}]],
+    "params": {"kinds": {}, "vary_bad": True},
+}
+_EXTRA = [
+    (2, dict(_base, name="vary-bad", p_bad=0.3, p_vary_bad=1.0, p_try=0.3)),
+    (2, dict(_base, name="base-errors", p_base_err=1.0, p_raise=0.15, p_item_err=0.2, p_flush_raise=0.5, p_try=0.3, p_errfut=0.1)),
+    (1, dict(_base, name="reuse", p_again=0.6, p_let=0.35, p_old=0.5, p_errfut=0.15, p_try=0.25)),
+]
+
 mach.install(globals(), "C02", ("EvStep", "EvGot", "EvDone"), ("C02:",), PROFILES, n_quick=300, n_thorough=25000,
-             nontrivial=_nontrivial, level="proof", corpus=_CORPUS)
+             nontrivial=_nontrivial, level="proof", corpus=_CORPUS + [_NONFUTURES],
+             extra_gen=mach.extra_profiles(_EXTRA, 60, 4000))
